@@ -23,7 +23,7 @@ use sozu_command_lib::{
     channel::Channel,
     config::{ConfigBuilder, FileConfig},
     proto::command::{
-        request::RequestType, ActivateListener, DeactivateListener, RemoveBackend, RemoveListener, AddBackend, Cluster, ListenerType, LoadBalancingParams,
+        request::RequestType, ActivateListener, DeactivateListener, RemoveBackend, RemoveListener, UpdateUdpListenerConfig, AddBackend, Cluster, ListenerType, LoadBalancingParams,
         Request, RequestUdpFrontend, ResponseStatus, ServerConfig, SoftStop, UdpAffinityKey, UdpClusterConfig,
         UdpListenerConfig, WorkerRequest, WorkerResponse,
     },
@@ -191,6 +191,7 @@ fn run(c: &Case, out: &mut Out) {
     let bounced = false;   // kept for the violation class of the (fixed) finding e2e-reactivated-listener-dead
     let mut v6 = false;
     let mut removed = false;
+    let mut max_rx: usize = 1500;   // max_rx_datagram_size of the listener (UpdateUdpListener changes it)
     let mut fd_base: Option<usize> = None;   // descriptors once the worker, listener and backends are up
     // flow key -> (replies so far, requests so far); a key is the client address (4-tuple) or its IP (2-tuple)
     let mut live: HashMap<String, (u32, u32, usize, SocketAddr, i128, SocketAddr)> = HashMap::new(); // + backend index, upstream peer, owner client, its address
@@ -288,7 +289,7 @@ fn run(c: &Case, out: &mut Out) {
                 let cap = if max_flows == 0 { u32::MAX } else { max_flows };
                 let existing = live.contains_key(&key);
                 // larger than max_rx_datagram_size (1500): dropped before any flow is allocated
-                let admitted = !removed && payload.len() <= 1500 && (existing || (live.len() as u32) < cap);
+                let admitted = !removed && payload.len() <= max_rx && (existing || (live.len() as u32) < cap);
                 // wait for the datagram at some backend
                 let deadline = Instant::now() + if admitted { if bounced { rt().min(Duration::from_millis(1500)) } else { rt() } } else { QUIET };
                 let mut hit: Option<(usize, Seen)> = None;
@@ -362,7 +363,7 @@ fn run(c: &Case, out: &mut Out) {
                     want.extend_from_slice(&payload);
                     // the echo is 3 bytes longer than the request: beyond max_rx_datagram_size the
                     // proxy drops it as truncated, by design
-                    if want.len() > 1500 {
+                    if want.len() > max_rx {
                         if recv_one(&clients[&owner], QUIET).is_some() {
                             o_reply = owner;
                             out.viol("e2e-isolated", &format!("client {owner}: a {}-byte reply above max_rx_datagram_size was returned", want.len()));
@@ -482,6 +483,39 @@ fn run(c: &Case, out: &mut Out) {
                     out.viol("e2e-bounded", "DeactivateListener / ActivateListener was refused");
                 }
                 out.obs(&[ts("bounce"), tbool(ok1), tbool(ok2)]);
+            }
+            "updlistener" => {
+                // UpdateUdpListener on the active listener: a new max_rx_datagram_size (the session's receive
+                // buffer is resized: an oversized datagram must still be dropped, never forwarded cut)
+                max_rx = a[0].n() as usize;
+                let faddr = front.unwrap();
+                let ok = worker.as_mut().map_or(false, |w| {
+                    w.req(RequestType::UpdateUdpListener(UpdateUdpListenerConfig {
+                        address: faddr.into(),
+                        max_rx_datagram_size: Some(max_rx as u32),
+                        ..Default::default()
+                    }))
+                });
+                out.obs(&[ts("updlistener"), tbool(ok)]);
+            }
+            "recluster_noudp" => {
+                // AddCluster for the same cluster WITHOUT a udp block: every UDP knob goes back to its default
+                // (SOURCE_IP affinity, no caps, no PROXY header) for the flows admitted from now on
+                with_port = false;
+                responses = 0;
+                requests = 0;
+                pp = false;
+                pp_every = false;
+                let ok = worker.as_mut().map_or(false, |w| {
+                    w.req(RequestType::AddCluster(Cluster {
+                        cluster_id: CLUSTER.into(),
+                        sticky_session: false,
+                        https_redirect: false,
+                        udp: None,
+                        ..Default::default()
+                    }))
+                });
+                out.obs(&[ts("recluster_noudp"), tbool(ok)]);
             }
             "recluster" => {
                 // cluster update that flips the affinity mode under live flows
